@@ -11,7 +11,7 @@ def rule(name, clause='N', text=''):
     return deco
 
 
-_MODULES = ['tab', 'exc', 'num', 'rng', 'own', 'ordacc', 'dec', 'scn', 'path', 'inf', 'idx', 'pin', 'pin2', 'frame', 'tbl', 'order', 'api']
+_MODULES = ['tab', 'exc', 'num', 'rng', 'own', 'ordacc', 'dec', 'scn', 'path', 'inf', 'idx', 'pin', 'pin2', 'frame', 'tbl', 'order', 'api', 'argkind']
 
 
 def load_all():
